@@ -327,8 +327,12 @@ def Spec.weighted (a : Spec) : Spec :=
 open Classical in
 /-- specification-level transition and output (`none` = not determined by the specified part of the history) -/
 noncomputable def astep (env : Env ℝ) (a : Spec) : Op ℝ → Spec × Option (Out ℝ)
-  | .setEstimateSize e =>
-      ({ a with est := e, Ac := identity e, Bc := Vec.tab e fun _ => zero, inv := some (Mat.tab e e fun _ _ => zero) }, some .unit)
+  | .setEstimateSize e _ =>
+      -- `J_.resize(Y_.rows(), e)`: the rows keep their specified entries iff the number of coefficients is unchanged
+      ({ a with est := e, jcols := e,
+                J := if a.cap * e = a.cap * a.jcols then (fun k c => if k < a.cap ∧ c < e then a.J k c else none)
+                     else fun _ _ => none,
+                Ac := identity e, Bc := Vec.tab e fun _ => zero, inv := some (Mat.tab e e fun _ _ => zero) }, some .unit)
   | .setDataSize n _ _ =>
       if a.cap < n then
         ({ a with n := n, cap := n, jcols := a.est, J := fun _ _ => none, Y := fun _ => none,
@@ -459,8 +463,45 @@ theorem step_refines (env : Env ℝ) (s : State ℝ) (a : Spec) (op : Op ℝ) (h
     Refines (step env s op).1 (astep env a op).1 ∧ ∀ y, (astep env a op).2 = some y → (step env s op).2 = y := by
   obtain ⟨he, hn, hY, hJs, hWs, hrow, hAc, hBc, hJ, hYv, hWv, hinv⟩ := h
   cases op with
-  | setEstimateSize e =>
-    refine ⟨⟨rfl, hn, hY, hJs, hWs, hrow, rfl, rfl, hJ, hYv, hWv, ?_⟩, ?_⟩
+  | setEstimateSize e jJ =>
+    -- the concrete and the specification-level test "same number of coefficients" agree
+    have hcond : (s.Y.size * e = s.J.size * Mat.cols s.J) ↔ (a.cap * e = a.cap * a.jcols) := by
+      rw [hY, hJs]
+      by_cases h0 : a.cap = 0
+      · simp [h0]
+      · have hc : Mat.cols s.J = a.jcols := hrow 0 (Nat.pos_of_ne_zero h0)
+        rw [hc]
+    have hsize : (setEstimateSize s e jJ).J.size = a.cap := by
+      unfold setEstimateSize
+      simp only []
+      split <;> simp [Mat.tab, hY]
+    refine ⟨⟨rfl, hn, hY, hsize, hWs, ?_, rfl, rfl, ?_, hYv, hWv, ?_⟩, ?_⟩
+    · intro k hk
+      show rowSize (setEstimateSize s e jJ) k = e
+      have hk' : k < s.Y.size := by rw [hY]; exact hk
+      unfold setEstimateSize rowSize
+      simp only []
+      split <;> simp [Mat.tab, hk']
+    · intro k c v hv
+      show (setEstimateSize s e jJ).J.get k c = v
+      simp only [astep] at hv
+      by_cases hc : a.cap * e = a.cap * a.jcols
+      · rw [if_pos hc] at hv
+        by_cases hkc : k < a.cap ∧ c < e
+        · rw [if_pos hkc] at hv
+          have hpos : 0 < a.cap := by omega
+          have hej : e = a.jcols := Nat.eq_of_mul_eq_mul_left hpos hc
+          unfold setEstimateSize
+          simp only [if_pos (hcond.mpr hc)]
+          rw [hY, Mat.get_tab _ _ _ hkc.1 hkc.2, hJs]
+          have h1 : (k + c * a.cap) % a.cap = k := by
+            rw [Nat.add_mul_mod_self_right]; exact Nat.mod_eq_of_lt hkc.1
+          have h2 : (k + c * a.cap) / a.cap = c := by
+            rw [Nat.add_mul_div_right _ _ hpos, Nat.div_eq_of_lt hkc.1, Nat.zero_add]
+          simp only [h1, h2]
+          exact hJ k c v hv
+        · rw [if_neg hkc] at hv; exact absurd hv (by simp)
+      · rw [if_neg hc] at hv; exact absurd hv (by simp)
     · intro m hm
       simp only [astep, Option.some.injEq] at hm
       subst hm; rfl
@@ -673,6 +714,7 @@ theorem history_independent (env : Env ℝ) (s₀ : State ℝ) (hwf : WF s₀) (
 /-- an operation with the unspecified reallocation contents replaced by zeros -/
 def eraseJunk : Op ℝ → Op ℝ
   | .setDataSize n _ _ => .setDataSize n (fun _ _ => 0) (fun _ => 0)
+  | .setEstimateSize e _ => .setEstimateSize e (fun _ _ => 0)
   | o => o
 
 /-- the specification-level semantics does not see the junk … -/
@@ -735,7 +777,7 @@ theorem estimate_depends_on_current_problem_only (env : Env ℝ) (s₁ s₂ : St
 
 /-- the script that states a problem on a brand-new object: sizes, every row and weight `< n`, preconditioner -/
 def freshOps (e n : Nat) (R : Nat → Vec ℝ) (ys ws : Nat → ℝ) (A : Mat ℝ) (b : Vec ℝ) : List (Op ℝ) :=
-  [.setEstimateSize e, .setDataSize n (fun _ _ => 0) (fun _ => 0)] ++
+  [.setEstimateSize e (fun _ _ => 0), .setDataSize n (fun _ _ => 0) (fun _ => 0)] ++
     ((List.range n).flatMap fun i => [.writeRow i (R i) (ys i), .setW i (ws i)]) ++ [.setPre A b]
 
 private theorem arun_append (env : Env ℝ) (a : Spec) (l₁ l₂ : List (Op ℝ)) :
@@ -791,7 +833,7 @@ theorem freshOps_spec (env : Env ℝ) (e n : Nat) (R : Nat → Vec ℝ) (ys ws :
     (∀ k < n, ∀ c < e, a.J k c = some ((R k).get c)) ∧ (∀ k < n, a.Y k = some (ys k)) ∧ (∀ k < n, a.W k = some (ws k)) := by
   intro a
   -- after the two sizing operations
-  let a₁ := arun env (forget State.default) [Op.setEstimateSize e, Op.setDataSize n (fun _ _ => 0) (fun _ => 0)]
+  let a₁ := arun env (forget State.default) [Op.setEstimateSize e (fun _ _ => 0), Op.setDataSize n (fun _ _ => 0) (fun _ => 0)]
   have ha : a = arun env (arun env a₁ ((List.range n).flatMap fun i => [Op.writeRow i (R i) (ys i), Op.setW i (ws i)])) [Op.setPre A b] := by
     show arun env _ (freshOps e n R ys ws A b) = _
     unfold freshOps
@@ -878,7 +920,7 @@ example : LDLTContract { eps := 0, svd := fun _ _ => ⟨#[], #[], #[]⟩, ldltIn
 /-- the object after: new(2); setDataSize(2); rows (2,0 | 1), (0,3 | 6) -/
 noncomputable def exState : State ℝ :=
   run { eps := 0, svd := fun _ _ => ⟨#[], #[], #[]⟩, ldltInv := fun _ A => A } State.default
-    [.setEstimateSize 2, .setDataSize 2 (fun _ _ => 7) (fun _ => 7), .writeRow 0 #[2, 0] 1, .writeRow 1 #[0, 3] 6]
+    [.setEstimateSize 2 (fun _ _ => 7), .setDataSize 2 (fun _ _ => 7) (fun _ => 7), .writeRow 0 #[2, 0] 1, .writeRow 1 #[0, 3] 6]
 
 /-- an environment whose SVD routine answers the normal matrix diag(4, 9) of `exState` correctly -/
 noncomputable def exEnv : Env ℝ := { eps := 1 / 10, svd := fun _ _ => ⟨identity 2, #[4, 9], identity 2⟩, ldltInv := fun _ A => A }
@@ -937,7 +979,7 @@ example : SVDAt exEnv exState ∧ NoCut exEnv exState ∧ 0 ≤ exEnv.eps ∧ Ac
     `history_independent` / `equals_fresh_solver` hold, and the row left over from the larger problem is not part of
     the specified current problem -/
 noncomputable def exShrink : List (Op ℝ) :=
-  [.setEstimateSize 2, .setDataSize 3 (fun _ _ => 7) (fun _ => 7), .writeRow 0 #[1, 1] 1, .writeRow 1 #[1, 2] 2,
+  [.setEstimateSize 2 (fun _ _ => 7), .setDataSize 3 (fun _ _ => 7) (fun _ => 7), .writeRow 0 #[1, 1] 1, .writeRow 1 #[1, 2] 2,
    .writeRow 2 #[5, 5] 9, .setDataSize 2 (fun _ _ => 8) (fun _ => 8), .writeRow 0 #[2, 0] 1, .writeRow 1 #[0, 3] 6]
 
 example : WF (State.default : State ℝ) ∧ (arun exEnv (forget State.default) exShrink).Defined true ∧
@@ -955,5 +997,30 @@ example : WF (State.default : State ℝ) ∧ (arun exEnv (forget State.default) 
     have hk' : k < 2 := hk
     interval_cases k <;> rfl
 
+/-- the estimate size is CHANGED on the live object with no reallocation behind it (the history repaired in /repo
+    186525a: `new(2); setDataSize(4); rows; setEstimateSize(3); setDataSize(4); rows`): the specification-level state is
+    completely `Defined` with the new size, so `history_independent` / `equals_fresh_solver` apply to it; and an
+    estimate-size change to the SAME size keeps the specified rows -/
+noncomputable def exResize : List (Op ℝ) :=
+  [.setEstimateSize 2 (fun _ _ => 7), .setDataSize 4 (fun _ _ => 7) (fun _ => 7), .writeRow 0 #[1, 0] 1, .writeRow 1 #[1, 1] 3,
+   .writeRow 2 #[1, 2] 5, .writeRow 3 #[1, 3] 7, .setEstimateSize 3 (fun _ _ => 9), .setDataSize 4 (fun _ _ => 8) (fun _ => 8),
+   .writeRow 0 #[1, 0, 0] 1, .writeRow 1 #[1, 1, 1] 2, .writeRow 2 #[1, 2, 4] 7, .writeRow 3 #[1, 3, 9] 14]
+
+example : (arun exEnv (forget State.default) exResize).Defined true ∧
+    (arun exEnv (forget State.default) exResize).est = 3 ∧ (arun exEnv (forget State.default) exResize).cap = 4 ∧
+    (arun exEnv (forget State.default) exResize).jcols = 3 ∧
+    (arun exEnv (forget State.default) (exResize.take 7)).J 1 1 = none ∧
+    (arun exEnv (forget State.default) (exResize.take 6 ++ [.setEstimateSize 2 (fun _ _ => 9)])).J 1 1 = some 1 := by
+  refine ⟨⟨?_, ?_, ?_⟩, rfl, rfl, rfl, rfl, rfl⟩
+  · intro k hk c hc
+    have hk' : k < 4 := hk
+    have hc' : c < 3 := hc
+    interval_cases k <;> interval_cases c <;> rfl
+  · intro k hk
+    have hk' : k < 4 := hk
+    interval_cases k <;> rfl
+  · intro _ k hk
+    have hk' : k < 4 := hk
+    interval_cases k <;> rfl
 
 end Romea.C07
